@@ -8,10 +8,12 @@ DOMAIN_T = f"""(define (domain w)
 {REQ}
 (:types t1 t3 - object t2 - t1)
 (:constants c - t1)
-(:predicates (r) (p ?a - t1) (q ?a - t1 ?b - t1) (m ?a - object) (s ?a - t2))
-(:functions (f) (g ?a - t1) (h ?a - t1 ?b - t1) (k ?a - t2))
+(:predicates (r) (p ?a - t1) (q ?a - t1 ?b - t1) (m ?a - object) (s ?a - t2) (u ?a - t1 ?b - t1 ?c - t3))
+(:functions (f) (g ?a - t1) (h ?a - t1 ?b - t1) (k ?a - t2) (w ?a - t1 ?b - t1 ?c - t3))
 (:action a :parameters (?x - t1) :precondition (and (p ?x)) :effect (and (not (p ?x)))))
 """
+# the same names with a FLAT hierarchy: t2 is not below t1 here (a stale cross-domain subtype answer would show)
+DOMAIN_F = DOMAIN_T.replace("(:types t1 t3 - object t2 - t1)", "(:types t1 t2 t3 - object)").replace("(:constants c - t1)", "(:constants c - t1)")
 DOMAIN_U = """(define (domain w)
 (:requirements :negative-preconditions :equality :numeric-fluents)
 (:constants c)
@@ -21,8 +23,8 @@ DOMAIN_U = """(define (domain w)
 """
 OBJ_T = {"o1": "t1", "o2": "t2", "o3": "t3"}
 OBJ_U = {"o1": "object", "o2": "object"}
-SIG_T = {"r": [], "p": ["t1"], "q": ["t1", "t1"], "m": ["object"], "s": ["t2"]}
-FSIG_T = {"f": [], "g": ["t1"], "h": ["t1", "t1"], "k": ["t2"]}
+SIG_T = {"r": [], "p": ["t1"], "q": ["t1", "t1"], "m": ["object"], "s": ["t2"], "u": ["t1", "t1", "t3"]}
+FSIG_T = {"f": [], "g": ["t1"], "h": ["t1", "t1"], "k": ["t2"], "w": ["t1", "t1", "t3"]}
 PARENT = {"t1": "object", "t2": "t1", "t3": "object", "object": None}
 NUMERALS = ["0", "7", "-3", "2.5", "-0.25", "1e2", "2.5e-1", "12345.678"]
 
@@ -81,8 +83,8 @@ def valid_problems(tier):
         objs = dict(OBJ_T if typed else OBJ_U)
         allobjs = dict(objs)
         allobjs["c"] = "t1" if typed else "object"
-        atoms = ground(SIG_T, allobjs, typed)
-        fluents = ground(FSIG_T, allobjs, typed)
+        atoms = [a for a in ground(SIG_T, allobjs, typed) if a[0] != "u"]
+        fluents = [f for f in ground(FSIG_T, allobjs, typed) if f[0] != "w"]
         decls = list(object_decls(objs, typed))
         kmax = 3 if tier == "quick" else 4
         fl_menu = [{}, {("f",): "7"}, {("g", "o1"): "2.5", ("h", "o1", "o1"): "-3"},
@@ -121,6 +123,8 @@ def valid_problems(tier):
         ("trailing-untyped", "o1 - t1 o2 - t2 u1 u2", {"o1": "t1", "o2": "t2", "u1": "object", "u2": "object"}),
         ("all-untyped", "u1 u2", {"u1": "object", "u2": "object"}),
         ("grouped-mixed", "o1 - t1 o2 o5 - t2 o3 - t3", {"o1": "t1", "o2": "t2", "o5": "t2", "o3": "t3"}),
+        ("object-first", "u1 - object o1 - t1 u2 - object o2 - t2", {"u1": "object", "o1": "t1", "u2": "object", "o2": "t2"}),
+        ("object-grouped-first", "u1 u2 - object o1 o4 - t1", {"u1": "object", "u2": "object", "o1": "t1", "o4": "t1"}),
         ("empty", "", {}),
     ):
         for atoms_sel in ([], [["m", n] for n in objs], [["r"]]):
@@ -129,6 +133,9 @@ def valid_problems(tier):
 
 
 BASES = [
+    {"atoms": [["u", "o1", "o1", "o3"], ["u", "o2", "o1", "o3"], ["p", "o1"]],
+     "fluents": {"w o1 o1 o3": "2", "w o1 o2 o3": "1"},
+     "goals": [["u", "o2", "o2", "o3"]], "numgoals": ["(> (w o1 o1 o3) 1)"]},
     {"atoms": [["p", "o1"], ["q", "o1", "o2"], ["m", "o3"], ["s", "o2"], ["r"]],
      "fluents": {"f": "1", "g o1": "2", "h o1 o2": "3", "k o2": "4"},
      "goals": [["p", "o2"], ["q", "o2", "o1"]], "numgoals": ["(> (g o1) 1)"]},
